@@ -108,13 +108,12 @@ let expr_matches_sval (rho : env) (e : expr) (v : sval) : bool =
    [loc] = "file:line | message" *)
 let panic_class (loc : string) : string =
   let has sub = try ignore (Str.search_forward (Str.regexp_string sub) loc 0); true with Not_found -> false in
-  if has "assertion" then "builder-assertion"                                   (* debug_assert! / assert! of a Context builder or of the parser *)
+  if has "assertion" || has "unwrap()" then "builder-assertion"                  (* debug_assert! / assert! / get_bv_type(..).unwrap() of a Context builder or of the parser: an operand is not what the builder demands *)
   else if has "expr/context.rs" || has "expr/types.rs" || has "expr/nodes.rs" then "builder-assertion"   (* unwrap of get_bv_type .. on the wrong kind of operand *)
   else if has "not yet implemented" then "todo"
   else if has "failed to parse command" then "expect-on-parse-error"
   else if has "attempt to" && has "overflow" then "arithmetic-overflow"
   else if has "out of range" || has "slice index" || has "byte index" then "slice-out-of-range"
-  else if has "unwrap()" then "unwrap"
   else "other"
 let panic_key (prefix : string) (loc : string) = prefix ^ ":panic:" ^ panic_class loc
 
@@ -235,6 +234,7 @@ let handle_text id fs =
                if ok then `Ok "wellformed:ok" else `Fail ("wrong-value:" ^ origin, show_expr e')
          | Some _, IPanic l -> `Fail (panic_key "wellformed" l, "panic at " ^ l)
          | Some _, _ -> `Ok ("wellsorted:" ^ cls_name impl)
+         | None, IPanic l -> `Fail (panic_key "illsorted" l, "panic at " ^ l)     (* balanced, but not well-sorted: an error, never a panic *)
          | None, _ -> `Ok ("illsorted:" ^ cls_name impl))
   in
   match verdict with
@@ -405,6 +405,7 @@ let handle_cmdtext id fs =
         (match cmd_check (ctx_of st) t, impl with
          | Some _, IPanic l -> `Fail (panic_key "wellformed" l, "panic at " ^ l)
          | Some _, _ -> `Ok ("cmdtext:accepted-by-reference:" ^ cls_name impl)
+         | None, IPanic l -> `Fail (panic_key "illsorted" l, "panic at " ^ l)
          | None, _ -> `Ok ("cmdtext:rejected-by-reference:" ^ cls_name impl))
   in
   match verdict with
